@@ -236,7 +236,8 @@ POLICIES = dict(reject=(paramiko.RejectPolicy, False), autoadd=(paramiko.AutoAdd
 STATES = ["same", "diff-same-type", "other-type-only", "hashed-same", "hashed-diff", "port-entry-same",
           "port-entry-diff", "plain-entry-other-port", "none", "multi-host-line-same", "same-plus-other-type",
           "multi-host-line-diff", "mixed-line-hashed-first-diff", "mixed-line-hashed-first-same",
-          "hashed-other-line-then-plain-diff", "bare-same-other-port", "bare-same-plus-port-diff"]
+          "hashed-other-line-then-plain-diff", "bare-same-other-port", "bare-same-plus-port-diff",
+          "alias-on-later-line-diff", "alias-on-later-line-same"]
 KEYTYPES = ["rsa", "ecdsa", "ed25519"]
 METHODS = ["password", "pkey", "strategy-password", "strategy-pkey"]
 
@@ -313,6 +314,12 @@ def client_case(ctx, idx, combo=None):
     elif state == "hashed-other-line-then-plain-diff":
         text += line(paramiko.HostKeys.hash_host("elsewhere.example"), server_key) + line(name, other_same_type)
         known_applies = False
+    elif state.startswith("alias-on-later-line"):
+        # the name we connect by appears only as an additional name on a later line that repeats an
+        # earlier line's host and key
+        k = server_key if state.endswith("same") else other_same_type
+        text += line("gateway.example", k) + line("gateway.example,%s" % name, k)
+        known_applies = state.endswith("same")
     elif state == "bare-same-other-port":
         # the port-22 name lists the very key the server on port 2222 presents: still an unknown host
         text += line(host, server_key)
